@@ -150,6 +150,25 @@ class PGen:
         return ["Struct", ms]
 
 
+def sized_program(r):
+    """a program whose every member has a size that is a function of the keyword context alone: sizeof answers, differently
+    for different contexts"""
+    K = ["this", "_params", "k"]
+    X = lambda: r.choice([B, ["name", "Int16ub"], ["name", "Int32ul"], ["Bytes", 3], ["Struct", [["a", B], ["b", ["name", "Int16ul"]]]]])
+    t = [
+        lambda: ["Bytes", K], lambda: ["Bytes", ["bin", "+", ["bin", "*", K, 2], 1]], lambda: ["Array", K, X()], lambda: ["Padding", ["bin", "&", K, 3]],
+        lambda: ["IfThenElse", ["bin", "==", K, r.choice([0, 1, 2])], ["name", "Int32ub"], B], lambda: ["If", ["bin", ">", K, 1], X()],
+        lambda: ["Switch", K, [[0, B], [1, ["name", "Int16ub"]], [2, ["Bytes", 5]]], r.choice([None, ["Bytes", 3]])],
+        lambda: ["Padded", ["bin", "+", K, 4], X()], lambda: ["Aligned", ["bin", "+", K, 2], X()], lambda: ["FixedSized", ["bin", "+", K, 5], X()],
+        lambda: ["BytesInteger", ["bin", "+", ["bin", "&", K, 3], 1], False, False], lambda: ["Bitwise", ["BitsInteger", ["bin", "*", ["bin", "+", ["bin", "&", K, 1], 1], 8], False, False]],
+        lambda: ["Struct", [["i", B], ["o", ["Bytes", ["this", "_", "_params", "k"]]]]] if False else ["Struct", [["i", B], ["o", ["Bytes", ["this", "_params", "k"]]]]],
+        lambda: ["Sequence", [[None, B], [None, ["Array", ["this", "_params", "k"], ["name", "Int16ub"]]]]], lambda: ["Const", tag(b"MZ"), None], lambda: X(),
+        lambda: ["FocusedSeq", "v", [[None, ["Const", tag(b"\x00"), None]], ["v", ["Bytes", ["this", "_params", "k"]]]]], lambda: ["Computed", K], lambda: ["Hex", ["name", "Int24ub"]],
+        lambda: ["Union", 0, [["a", ["name", "Int16ub"]], ["b", ["Bytes", 2]]]], lambda: ["Enum", B, [["a", 1], ["b", 2]]], lambda: ["PaddedString", ["bin", "+", K, 1], "ascii"],
+    ]
+    return ["Struct", [["v%d" % i, r.choice(t)()] for i in range(r.randint(1, 5))]]
+
+
 def inputs(rng, count):
     outs = []
     for _ in range(count):
@@ -280,10 +299,18 @@ def run_program(ctx, prog, kw, ins, sample=False):
                 ctx.violation("build-derived:%s:%s" % ("compiled-raises-" + bc2[1] if bc2[0] != "ok" else "value-differs", derived_kinds(prog)),
                               "derived members omitted: interpreter builds %s ; compiled %s (value %r)" % (bi2[1].hex()[:120], ("raised %s: %s" % (bc2[1], bc2[2])) if bc2[0] != "ok" else "builds " + bc2[1].hex()[:120], strip(v2)), case)
                 return
-    si = outcome(lambda: d.sizeof(**kw))
-    sc = outcome(lambda: c.sizeof(**kw))
-    if si[:2] != sc[:2]:
-        ctx.violation("sizeof-differs", "sizeof: interpreter %r, compiled %r" % (si[:2], sc[:2]), {"program": prog, "kw": kw})
+    # sizeof under a sequence of keyword contexts on the same compiled instance (the first context is asked again at the end)
+    answers = set()
+    for j, kw2 in enumerate([kw] + [{"k": x} for x in (3, 0, 2, 1)] + [{}, kw]):
+        si = outcome(lambda: d.sizeof(**kw2))
+        sc = outcome(lambda: c.sizeof(**kw2))
+        ctx.ev()
+        answers.add(si[:2])
+        if si[:2] != sc[:2]:
+            ctx.violation("sizeof-differs" + (":later-call" if j else ""), "sizeof(%r) (call %d on this instance): interpreter %r, compiled %r" % (kw2, j + 1, si[:2], sc[:2]), {"program": prog, "kw": kw})
+            break
+    if len(answers) > 1:
+        ctx.count("programs_whose_sizeof_depends_on_context")
     if accepted and native >= 2 and hasexpr:
         ctx.nontrivial("prog", src_hash)
     ctx.count("native_emitted_fragments", native)
@@ -351,7 +378,7 @@ def run(ctx):
     nin = ctx.pick(30, 80)
     for i in range(n):
         g = PGen(rng)
-        prog = g.program()
+        prog = g.program() if i % 4 else sized_program(rng)
         kw = {"k": rng.choice([0, 1, 2, 3])}
         run_program(ctx, prog, kw, inputs(rng, nin), sample=(i < 2 and ctx.index < 2))
 
